@@ -519,6 +519,7 @@ func (l *IPFSLog) Iterator(options *IteratorOptions, output chan<- iface.IPFSLog
 // The size of the joined log can be specified by specifying the size argument, to include all values use -1
 func (l *IPFSLog) Join(otherLog iface.IPFSLog, size int) (iface.IPFSLog, error) {
 	// INFO: JS default size is -1
+	verifYield(l, "enter.Join")
 
 	if otherLog == nil || l == nil {
 		return nil, errmsg.ErrLogJoinNotDefined
